@@ -18,7 +18,7 @@ func Union(c explore.Chooser) *prog.Program {
 
 	marker := s.Pick("Shape.marker", "isShape", "IsShape")
 	nmeth := s.Pick("Shape.methods", "1", "0", "2")
-	second := s.Pick("I2", "absent", "other", "embeds-shape", "in-sub", "unreached")
+	second := s.Pick("I2", "absent", "other", "embeds-shape", "in-sub", "unreached", "two-more")
 	reach := s.Pick("reach", "field", "named-slice", "named-map", "top-level-only", "alias", "member-field", "nested-struct")
 
 	homonym := s.Pick("homonym", "none", "square-in-sub")
@@ -38,6 +38,9 @@ func Union(c explore.Chooser) *prog.Program {
 	switch second {
 	case "other", "unreached":
 		a.WriteString("type Other interface {\n\tisOther()\n}\n\n")
+	case "two-more":
+		// three unions in all; a struct implementing the three of them reports them in name order
+		a.WriteString("type Other interface {\n\tisOther()\n}\n\ntype Extra interface {\n\tisExtra()\n}\n\n")
 	case "embeds-shape":
 		a.WriteString("type Other interface {\n\tShape\n\tisOther()\n}\n\n")
 	case "in-sub":
@@ -66,7 +69,7 @@ func Union(c explore.Chooser) *prog.Program {
 		kind := s.Pick(site+".kind", append([]string{k.defKind}, without(kindsAll, k.defKind)...)...)
 		impl := s.Pick(site+".impl", append([]string{k.defImpl}, without(implAll, k.defImpl)...)...)
 		oimpl := "none"
-		if second == "other" || second == "embeds-shape" || second == "unreached" {
+		if second == "other" || second == "embeds-shape" || second == "unreached" || second == "two-more" {
 			oimpl = s.Pick(site+".implOther", append([]string{k.defOtherImpl}, without(implAll, k.defOtherImpl)...)...)
 		}
 		if k.name == "Circle" {
@@ -117,6 +120,9 @@ func Union(c explore.Chooser) *prog.Program {
 			}
 			if oimpl != "none" {
 				fmt.Fprintf(out, "func %s isOther() {}\n\n", r)
+				if second == "two-more" {
+					fmt.Fprintf(out, "func %s isExtra() {}\n\n", r)
+				}
 			}
 			impl, oimpl = "none", "none" // no method of its own
 		case "struct", "struct-other-file", "struct-in-sub":
@@ -141,6 +147,9 @@ func Union(c explore.Chooser) *prog.Program {
 		}
 		if pkgOfK == "root" {
 			addMethod(oimpl, "isOther", "", "")
+			if second == "two-more" {
+				addMethod(oimpl, "isExtra", "", "")
+			}
 		}
 		if kind == "interface" {
 			fmt.Fprintf(out, "type %s interface {\n%s\n}\n\n", k.name, strings.Join(methods, "\n"))
@@ -178,6 +187,8 @@ func Union(c explore.Chooser) *prog.Program {
 		holder = append(holder, "\tI []Inner")
 	}
 	switch second {
+	case "two-more":
+		holder = append(holder, "\tO Other", "\tE Extra")
 	case "other", "embeds-shape":
 		holder = append(holder, "\tO Other")
 	case "in-sub":
